@@ -296,6 +296,8 @@ fn build_runs(thorough: bool, rng: &mut Rng) -> Vec<(RunCfg, Expect)> {
             let mut c = RunCfg::new(layered(40, 1500, 5, vec![p(0, 0, 0)]), strat, t);
             c.panic_seed = 1 + rng.next() % 1000;
             c.perturb = 1 + rng.next() % 1000;
+            // half of the panic runs wait with join_and_report (bfs / dfs): the panic must surface from it as well
+            c.report_join = strat != "ondemand" && t != 4;
             v.push((c, Expect::Panic));
         }
     }
